@@ -98,6 +98,13 @@ def check(run):
     run.floor('C06-AGREE', sum(1 for o in run.obs if o.rule == 'C06-AGREE'), 19)
     outfile(run, p)
     inplace(run, p)
+    from .c17 import rownum
+    rownum(run, p)
+    run.rules['C06-ROWNUM'] = run.rules.pop('C17-ROWNUM')
+    for o in run.obs:
+        if o.rule == 'C17-ROWNUM':
+            o.rule = 'C06-ROWNUM'
+    run.floors = [(('C06-ROWNUM' if r == 'C17-ROWNUM' else r), c, m) for r, c, m in run.floors]
     from .. import ief, triage
     ief.run_ief(run, 'C06', [p.fn('detect_df')], triage=triage.IEF)
     run.floor('C06-IEF', run.units['ief_functions_checked'], 80)
